@@ -569,6 +569,43 @@ def cli_bytes_case(ck, inp, tag):
         ck.oracle_fail('exit_status', inp, detail, signature={'real_cli': True, 'expected': expected_exit, 'got': obs['exit']})
 
 
+def cli_interrupt_case(ck, inp, tag):
+    """real CLI, parallel scheduler (non-exclusive runs, the machine's cores), SIGINT / SIGTERM while the worker
+    threads are inside an invocation: exit status 2 and nothing that looks like a traceback on stdout / stderr"""
+    import signal
+    import drive_cli_a as cli
+    wd = c04._mkwd(ck)
+    n = inp['runs']
+    cli.write_harness(wd, dict(('B%d' % i, [(0, b'', 1, 4)] * 3) for i in range(n)))
+    conf = cli.base_config(wd, dict(('B%d' % i, {'N': 2, 'retries': 0, 'exe': i, 'excl': not inp.get('parallel', True)})
+                                    for i in range(n)))
+    obs = cli.run_cli_interrupt(wd, conf, inp.get('wait_starts', 2), signal.SIGINT if inp['signal'] == 'INT' else signal.SIGTERM,
+                                argv=inp.get('argv') or [])
+    ck.impl_traces += 1
+    ck.count('real-cli:interrupt %s (%s)' % (inp['signal'], 'parallel' if inp.get('parallel', True) else 'sequential'))
+    ck.case(nontrivial_key=(tag, str(inp)), sample={'real_cli_interrupt': inp['signal'], 'exit': obs['exit']})
+    if not obs['delivered']:
+        ck.notes.append('interrupt slice: the session ended before the signal could be sent')
+        return
+    detail = {'exit': obs['exit'], 'stderr': obs['stderr_tail'][-500:], 'starts_seen': obs['starts_seen']}
+    if obs['traceback'] or obs['thread_exception']:
+        ck.oracle_fail('no_traceback', inp, detail,
+                       signature={'real_cli': True, 'interrupted': inp['signal'],
+                                  'in_thread': obs['thread_exception']})
+    elif obs['exit'] != 2:
+        ck.oracle_fail('exit_status', inp, detail, signature={'real_cli': True, 'expected': 'aborted', 'got': obs['exit']})
+
+
+def cli_interrupt_slice(ck):
+    rng = ck.rng
+    cases = [{'signal': 'INT', 'parallel': True}, {'signal': 'TERM', 'parallel': True}, {'signal': 'INT', 'parallel': False}]
+    if ck.tier != 'quick':
+        cases = cases * 4
+    for c in cases:
+        cli_interrupt_case(ck, dict(c, kind='cli-interrupt', runs=rng.randint(3, 5), wait_starts=2 if c['parallel'] else 1,
+                                    argv=rng.choice([[], ['-s', 'round-robin']])), 'cli-int')
+
+
 def cli_bytes_slice(ck):
     import drive_cli_a as cli
     rng = ck.rng
@@ -589,7 +626,9 @@ def load_corpus(ck):
 
 
 def run_input(ck, inp, tag):
-    if inp.get('kind') == 'cli-bytes':
+    if inp.get('kind') == 'cli-interrupt':
+        cli_interrupt_case(ck, inp, tag)
+    elif inp.get('kind') == 'cli-bytes':
         cli_bytes_case(ck, inp, tag)
     elif inp.get('kind') == 'usage':
         usage_cases(ck)
@@ -660,6 +699,7 @@ def run(ck):
 
 
     cli_bytes_slice(ck)
+    cli_interrupt_slice(ck)
     c04.queue_of(ck).flush()
     sigs = {}
     for f in ck.oracle_failures:
